@@ -58,13 +58,32 @@ def execute(case, ctx):
     def mark():
         ctx.states.add(h64((ih, tuple(d.job_next_operation_index), tuple(d.machine_next_available_time), tuple(d.job_next_available_time))))
 
+    crashes = []  # exceptions met on filtered histories: such a history cannot be completed, it is no witness
+
+    def crashed(e, where):
+        from ..core import short_exc
+
+        if isinstance(e, (Foreign, KeyboardInterrupt, SystemExit, MemoryError)) or type(e).__name__ in ("Violation", "TimeoutError"):
+            raise e
+        crashes.append(f"{where} raised {short_exc(e)}")
+        ctx.probe("filtered_history_crashed")
+
     for k in range(cfg["rollouts"]):
-        d.reset()
         remaining = list(order)
         p_rand = 0.0 if k == 0 else 0.3
         dead_end = False
-        for _ in range(n):
-            av = d.available_operations()
+        try:
+            d.reset()
+        except Exception as e:  # noqa: BLE001
+            crashed(e, "reset()")
+            dead_end = True
+        for _ in range(n if not dead_end else 0):
+            try:
+                av = d.available_operations()
+            except Exception as e:  # noqa: BLE001
+                crashed(e, "available_operations()")
+                dead_end = True
+                break
             if not av:
                 # nothing survives the filter although operations are ready: this filtered history cannot be
                 # completed; it simply is no witness (C07 owns non-emptiness as such)
@@ -89,7 +108,12 @@ def execute(case, ctx):
                     if j == o.job_id:
                         del remaining[idx]
                         break
-            d.dispatch(*choice)
+            try:
+                d.dispatch(*choice)
+            except Exception as e:  # noqa: BLE001
+                crashed(e, f"dispatch of the surviving operation ({choice[0].job_id},{choice[0].position_in_job}) on machine {choice[1]}")
+                dead_end = True
+                break
             mark()
         ctx.count("rollout")
         if dead_end:
@@ -122,14 +146,22 @@ def execute(case, ctx):
             d.dispatch(ops_by[(j, p)], m)
 
     def dfs(prefix):
-        rebuild(prefix)
+        try:
+            rebuild(prefix)
+        except Exception as e:  # noqa: BLE001
+            crashed(e, f"re-dispatching the filtered history {prefix}")
+            return INF
         mark()
         if d.schedule.is_complete():
             return d.schedule.makespan()
         key = state_key()
         if key in memo:
             return memo[key]
-        choices = [(o.job_id, o.position_in_job, m) for o in d.available_operations() for m in o.machines]
+        try:
+            choices = [(o.job_id, o.position_in_job, m) for o in d.available_operations() for m in o.machines]
+        except Exception as e:  # noqa: BLE001
+            crashed(e, f"available_operations() after {prefix}")
+            choices = []
         if not choices:
             memo[key] = INF  # dead end: no complete filtered history through this state
             return INF
@@ -144,7 +176,7 @@ def execute(case, ctx):
 
     filtered_best = dfs([])
     if filtered_best == INF:
-        filtered_best_txt = "no filtered history can even be completed (the filter returns an empty list on every path)"
+        filtered_best_txt = "no filtered history can even be completed (" + (f"e.g. {crashes[0]}" if crashes else "the filter returns an empty list on every path") + ")"
     else:
         filtered_best_txt = f"no history that only dispatches operations kept by filter_dominated_operations does better than {filtered_best}"
     ctx.count("exhaustive_confirmation")
